@@ -143,8 +143,17 @@ def run_v_unit(path, sc, S, outdir, prop, tier, seed, baseline):
         if st in ("verified", "verified-trivially"):
             out.append(Result(ob, "V", "verified", "", r["time_ms"] / 1000.0, meta))
         elif st == "false":
-            out.append(Result(ob, "V", "false", "\n".join(r["msgs"]), r["time_ms"] / 1000.0, meta))
-            retry.append(ob)
+            una = []
+            for ch in u.fns:
+                if ch.ob == ob:
+                    una = ch.meta.get("unannotated", [])
+            if una:
+                # the text has a loop without an invariant / a closure without a contract: the verifier knows nothing
+                # of what it does, so a proof that fails says nothing about the code
+                out.append(Result(ob, "V", "undecided", "not judged: " + "; ".join(una[:3]) + " (the sidecar says nothing about it, a failed proof would mean nothing) - " + "\n".join(r["msgs"])[:400], r["time_ms"] / 1000.0, meta))
+            else:
+                out.append(Result(ob, "V", "false", "\n".join(r["msgs"]), r["time_ms"] / 1000.0, meta))
+                retry.append(ob)
         elif st == "no-query":
             out.append(Result(ob, "V", "undecided", "vacuity guard: Verus generated no query for this function", 0, meta))
         else:
